@@ -378,8 +378,9 @@ theorem no_anchor_fail_closed (qname : Name) (cands : List Cand) (a b n1 n2 n3 n
 /-- the gates are in place in the tree under check (regenerated `go/ast` shape facts):
 `hasTrustAnchors` is tested, with an error return, before the first signer lookup of each of the
 three functions; `ValidateSigner` guards each signer loop before `findDS` / `verifyDNSSEC` /
-`isZoneSecure`; and `verifyDNSSEC` hands the DS-anchored subset to the check of the signer's own
-DNSKEY response. -/
+`isZoneSecure`; `verifyDNSSEC` hands the DS-anchored subset to the check of the signer's own
+DNSKEY response; `answer` / `authority` derive the root's DS set from the anchors (`rootParentDS`)
+before judging anything; `resolve` hands a bare NXDOMAIN and an empty NOERROR to `authority`. -/
 theorem gates_present_in_tree :
     SdnsVerif.Gen.C01.shape_anchor_gate_answer = true ∧
     SdnsVerif.Gen.C01.shape_anchor_gate_authority = true ∧
@@ -387,7 +388,10 @@ theorem gates_present_in_tree :
     SdnsVerif.Gen.C01.shape_signer_checked_before_findds_answer = true ∧
     SdnsVerif.Gen.C01.shape_signer_checked_before_findds_authority = true ∧
     SdnsVerif.Gen.C01.shape_signer_checked_before_findds_validateDelegation = true ∧
-    SdnsVerif.Gen.C01.shape_verifydnssec_anchors_own_dnskey_rrset = true := by
+    SdnsVerif.Gen.C01.shape_verifydnssec_anchors_own_dnskey_rrset = true ∧
+    SdnsVerif.Gen.C01.shape_root_ds_from_anchors_answer = true ∧
+    SdnsVerif.Gen.C01.shape_root_ds_from_anchors_authority = true ∧
+    SdnsVerif.Gen.C01.shape_bare_denials_go_through_authority = true := by
   decide
 
 /-! ## a zone is treated as unsigned only on proof -/
@@ -444,6 +448,57 @@ theorem insecure_only_on_proof {on anchorsOk : Bool} {qname : Name} {cands : Lis
       cases zs <;> cases pi <;> simp_all
   · right
     exact answerLoop_insecure qname cands _ h
+
+/-- **The root level is no exception** (after a185dbb).  A response served by a root server that
+carries no usable signature is fatal whenever validation is on, CD=0 and the trust anchors yield a
+supported DS for the root — unless an insecure delegation below the root is proven.  (Before the
+repair `parentDS` was empty there, `isZoneSecure` said "insecure" and any unsigned answer that
+claimed to come from a root server was accepted for any name.) -/
+theorem root_unsigned_is_fatal {qname : Name} {anchorDS : List DS} {d : DS} {rest : List DS} {probe : Bool}
+    (ha : anchorDS = d :: rest) (hown : d.owner = []) (hsup : supportedDS d = true) :
+    answerAt true true false qname [] [] anchorDS [] probe false = .fail .nosigs := by
+  subst ha
+  simp [answerAt, rootParentDS, answerDecision, isZoneSecure, hown, hsup]
+
+/-- and for any zone: with CD=0 an unsigned response is accepted by `answer` only if the DS chain
+says the serving zone is insecure (no supported DS inherited, or the DS walk said so) or the
+insecure delegation is proven. -/
+theorem unsigned_accepted_only_if_insecure {on anchorsOk : Bool} {qname zone : Name} {pds ads : List DS}
+    {probe pi : Bool}
+    (h : answerAt on anchorsOk false qname zone pds ads [] probe pi = .acceptedInsecure) :
+    pi = true ∨ ∃ p, rootParentDS on pds ads zone = some p ∧ isZoneSecure p zone probe = false := by
+  unfold answerAt at h
+  simp only [Bool.false_eq_true, if_false] at h
+  split at h; · cases h
+  split at h
+  · cases h
+  · rename_i p hp
+    rcases insecure_only_on_proof h with ⟨_, hz | hpi⟩ | ⟨c, hc, _⟩
+    · exact Or.inr ⟨p, hp, hz⟩
+    · exact Or.inl hpi
+    · simp at hc
+
+/-- **Nothing that reads as an answer or a denial bypasses validation** (after dc006eb): the only
+responses `resolve` hands back unvalidated are data-less error replies (rcode neither NOERROR nor
+NXDOMAIN, no answer, no authority); a bare NXDOMAIN and an empty NOERROR go through `authority`. -/
+theorem only_dataless_errors_are_relayed {rcode nAns nNs : Nat} {minimized : Bool}
+    (h : dispatch rcode nAns nNs minimized = .relay) :
+    rcode ≠ 0 ∧ rcode ≠ 3 ∧ nAns = 0 ∧ nNs = 0 := by
+  unfold dispatch at h
+  split at h
+  · rename_i hc
+    simp only [Bool.and_eq_true, bne_iff_ne, ne_eq, beq_iff_eq] at hc
+    split at h; · cases h
+    split at h; · cases h
+    rename_i h3
+    exact ⟨hc.1.1, by simpa using h3, hc.1.2, hc.2⟩
+  · split at h; · cases h
+    split at h; · cases h
+    split at h <;> cases h
+
+example : dispatch 3 0 0 false = .authority := by decide
+example : dispatch 0 0 0 false = .authority := by decide
+example : dispatch 5 0 0 false = .relay := by decide
 
 /-- the same for the delegation path: the child is treated as insecure only for one of the
 listed reasons; in particular never because a signer outside the ancestry of the name was offered. -/
